@@ -520,6 +520,11 @@ class Run:
             try:
                 out = self.mod.replay(unit.name, inp, "")
             except Exception:
+                # an error of the harness decides nothing, but it must not go unnoticed
+                err = traceback.format_exc().strip().splitlines()
+                rec.setdefault("harness_errors", []).append(" | ".join(err[-3:])[:400])
+                print(f"NOTE: bounded stand-in of {unit.name}: harness error on input {n}: {err[-1][:200]}")
+                self.harness_errors = getattr(self, "harness_errors", 0) + 1
                 continue
             rec["cases"] = n
             if out.get("failed"):
@@ -644,7 +649,12 @@ class Run:
         # functions that fell out of the subset: bounded stand-in decides
         for unit, reason in self.unsupported:
             print(f"  not verified (outside the accepted subset): {unit.name}: {reason}")
+            errs = getattr(self, "harness_errors", 0)
             found = self.bounded_standin(unit, reason)
+            if not found and getattr(self, "harness_errors", 0) > errs:
+                self.undecided.append(f"{unit.name}: the bounded stand-in could not run "
+                                      f"({getattr(self, 'harness_errors', 0) - errs} harness error(s))")
+                continue
             if not found and getattr(unit, "bounded_by_design", False):
                 # declared in the contract module and in DESIGN.md: this function is outside
                 # the reach of the verifier; the bounded stand-in is its (labelled) check
